@@ -8,10 +8,11 @@
    - arrays and maps do not nest; oneof members are plain (not repeated, not optional), and
      none is called "type" (the wrapper's proto oneof); a oneof has at least one member;
    - a property is not both required and optional;
+   - no two declarations of a package generate the same proto symbol;
    - path parameters of a method name request fields; several messages of one topic are named. *)
 From Coq Require Import String List NArith Bool.
 From J5V.lib Require Import Outcome.
-From J5V.model Require Import J5sAst Desc J5sWalk J5sLink J5sContract.
+From J5V.model Require Import J5sAst Desc J5sWalk J5sLink J5sContract J5sSymbols.
 Import ListNotations.
 Local Open Scope N_scope.
 
@@ -39,14 +40,10 @@ Definition type_ident_or_seg (s : str) : bool :=
 
 Definition name_opt_ok (s : str) : bool := match s with [] => true | _ => type_ident s end.
 
-(* enum: option names; UNSPECIFIED may only be spelled as the first option *)
+(* enum: option names (that the value names they generate are new in their scope is part of the
+   symbol clause of [valid_bundle]) *)
 Definition wf_enum (e : enum) : bool :=
   forallb option_ident (e_opts e) && distinct (e_opts e) &&
-  match e_opts e with
-  | o :: r => (str_eqb o (b "UNSPECIFIED") || negb (has_suffix (b "UNSPECIFIED") o)) &&
-              forallb (fun x => negb (has_suffix (b "UNSPECIFIED") x)) r
-  | [] => true
-  end &&
   match e_prefix e with [] => true | p => option_ident p end.
 
 Section Valid.
@@ -193,12 +190,25 @@ Definition valid_file (bd : bundle) (f : jfile) : bool :=
 
 Definition bundle_pkgs (bd : bundle) : list str := map bfile_pkg bd.
 
+(* no two declarations of a package generate the same proto symbol (message, field, enum, enum
+   value - in the scope enclosing its enum -, service, method; the request / response / topic
+   message types in the .service / .topic sub-packages included): the list of declared symbols
+   (J5sSymbols, read off the source) has no duplicates *)
+Definition symbols_ok (bd : bundle) (pkg : str) : bool :=
+  nodup_str (decl_package_symbols snake camel screaming bd pkg).
+
+(* the sub-package names are reserved *)
+Definition subpackages_free (bd : bundle) (pkg : str) : bool :=
+  negb (existsb (str_eqb (pkg ++ b ".service")) (bundle_pkgs bd)) &&
+  negb (existsb (str_eqb (pkg ++ b ".topic")) (bundle_pkgs bd)).
+
 Definition valid_bundle (bd : bundle) : bool :=
   forallb (fun f => match f with BJ j => valid_file bd j | BP _ => true end) bd &&
   forallb (fun pkg => match pkg_exports camel bd pkg with
                       | Some ex => distinct (map tr_name ex)
                       | None => true
                       end) (bundle_pkgs bd) &&
+  forallb (fun pkg => symbols_ok bd pkg && subpackages_free bd pkg) (bundle_pkgs bd) &&
   distinct (map bfile_path bd).
 
 End ValidBundle.
